@@ -36,6 +36,7 @@ CONFIGS = {
     'z3-ematch': {'auto_config': False, 'smt.mbqi': False, 'smt.relevancy': 0},
     'z3-default': {},
     'z3-mbqi': {'smt.mbqi': True},
+    'z3-seed1': {'smt.random_seed': 7, 'sat.random_seed': 7, 'smt.mbqi': True, 'smt.arith.solver': 2},
 }
 
 
@@ -103,12 +104,12 @@ def solve_task(task):
             if r == 'unsat':
                 return {'idx': idx, 'status': 'proved', 'backend': cfg, 'time': total, 'tried': tried}
         return {'idx': idx, 'status': 'unknown', 'backend': '-', 'time': total, 'tried': tried}
-    order = ['z3-ematch', 'z3-default'] if has_quant else ['z3-default', 'z3-ematch']
+    order = ['z3-ematch', 'z3-mbqi-short', 'z3-default', 'z3-seed1'] if has_quant else ['z3-default', 'z3-ematch']
     tried = []
     total = 0.0
     for cfg in order:
         try:
-            r, dt, model, why = _check_once(smt2, cfg, timeout_ms)
+            r, dt, model, why = _check_once(smt2, cfg.replace('-short', ''), min(timeout_ms, 6000) if cfg.endswith('-short') else timeout_ms)
         except z3.Z3Exception as e:
             r, dt, model, why = 'unknown', 0.0, None, 'z3 exception: %s' % e
         total += dt
